@@ -1,15 +1,20 @@
 (* Gateway/Sound_C04C11.v — the gateway model's own outputs are accepted by chk_C04 and chk_C11.
 
-   Both statements are FALSE as given for reachable states (counterexamples at the end of the
-   file, checked with vm_compute); the theorems proved are chk_C04_sound_partial and
-   chk_C11_sound_partial, with the extra hypotheses documented there. *)
+   Both statements are FALSE without a side condition for reachable states (counterexamples at the
+   end of the file, checked with vm_compute).  Proved:
+   - chk_C04_sound_partial (side condition tids_invisible), tids_invisible_init / tids_invisible_step
+     (preservation under cid_stable), chk_C04_all_histories;
+   - chk_C11_sound_partial (side condition connack_not_due), chk_C11_all_histories.
+   The former side conditions announced_when_exhausted (C04 clause 4) and buffer_small (C11 clause 2)
+   are gone: the checkers now accept a registered pair after exhaustion, and flush_expected follows
+   the flush up to the first oversized packet and the DISCONNECT of the terminating session. *)
 From Coq Require Import List NArith Bool Lia ZArith ZifyN ZifyNat ZifyBool.
 From stdpp Require Import base option list numbers fin_maps nmap.
 From RecordUpdate Require Import RecordSet.
 From Verif.Base Require Import Bytes BytesProofs.
 From Verif.Codec Require Import Packets Decode Encode EncodeProofs.
 From Verif.Topics Require Import Predefined PredefinedProofs.
-From Verif.Gateway Require Import GwTypes GwStep GwWf Sound_C04C11_aux.
+From Verif.Gateway Require Import GwTypes GwStep GwWf GwRun Sound_C04C11_aux.
 From Verif.Checkers Require Import ChkCodec ChkGw ChkGw2.
 Import RecordSetNotations.
 Open Scope N_scope.
@@ -1042,28 +1047,22 @@ Proof.
   eapply suback_told; eassumption.
 Qed.
 
-(* Extra hypothesis 1 (clause 2): no known topic ID is a predefined topic ID of the session's
+(* The extra hypothesis (clause 2): no known topic ID is a predefined topic ID of the session's
    current client ID.  It holds initially and is preserved by every step that keeps gw_client_id
-   (tids_invisible_step); it can only break when a CONNECT handled in state Disconnected or Active
-   changes the client ID after topic IDs were allocated (which includes IDs allocated for broker
-   PUBLISHes that arrive before the first CONNECT, under the empty client ID). *)
+   or starts with nothing known (tids_invisible_step); it can only break when a CONNECT handled in
+   state Disconnected changes the client ID after topic IDs were allocated (which includes IDs
+   allocated for broker PUBLISHes that arrive before the first CONNECT, under the empty client ID). *)
 Definition tids_invisible (cfg : gw_cfg) (s : gw_state) : Prop :=
   forall i n, known s i n -> get_name (predefined cfg) (gw_client_id s) i = None.
 
-(* Extra hypothesis 2 (clause 4): once the topic IDs are exhausted, every registered pair has been
-   announced.  It excludes a SUBSCRIBE by name whose topic ID was allocated before exhaustion and
-   whose SUBACK has not been relayed yet (or never will be): that ID is in gw_registered only. *)
-Definition announced_when_exhausted (s : gw_state) : Prop :=
-  gw_no_more_tids s = true -> forall i n, gw_registered s !! i = Some n -> In (i, n) (gw_handed_out s).
-
-(* ORIGINAL STATEMENT (false, see the counterexamples at the end of the file):
+(* ORIGINAL STATEMENT (false, see the counterexample at the end of the file):
    Theorem chk_C04_sound : forall cfg s ev, wf_cfg cfg -> reach cfg s -> wf_event ev ->
      chk_C04 cfg s ev (obs_of_outs (snd (gw_step cfg s ev))) = []. *)
 Theorem chk_C04_sound_partial : forall cfg s ev, wf_cfg cfg -> reach cfg s -> wf_event ev ->
-  tids_invisible cfg s -> announced_when_exhausted s ->
+  tids_invisible cfg s ->
   chk_C04 cfg s ev (obs_of_outs (snd (gw_step cfg s ev))) = [].
 Proof.
-  intros cfg s ev Hwf Hreach _ Hvis Hex. pose proof (reach_inv cfg s Hwf Hreach) as HI.
+  intros cfg s ev Hwf Hreach _ Hvis. pose proof (reach_inv cfg s Hwf Hreach) as HI.
   unfold chk_C04. destruct (running s) eqn:Hrun; [|reflexivity]. cbn [negb].
   pose proof (handed_in_post cfg s ev Hwf HI Hrun) as Hhs.
   pose proof (gw_step_post cfg s ev Hwf HI) as [[HI' (Hinc & Hlat & Hle)] _].
@@ -1093,29 +1092,273 @@ Proof.
   { apply forallb_forall. intros e He. apply Hcons; [|exact He]. intros x Hx. apply Hhs, Hx. }
   rewrite E2. cbn [app].
   destruct (gw_no_more_tids s) eqn:Hnm; [|reflexivity].
-  assert (E3 : forallb (fun e => existsb (fun h => (fst h =? fst e) && beq (snd h) (snd e)) (gw_handed_out s)) hs = true).
-  { apply forallb_forall. intros [i n] He. cbn [fst snd]. apply existsb_exists. exists (i, n). cbn [fst snd].
-    split; [|rewrite N.eqb_refl, beq_refl; reflexivity].
+  assert (E3 : forallb (fun e => existsb (fun h => (fst h =? fst e) && beq (snd h) (snd e)) (gw_handed_out s) ||
+                                 match gw_registered s !! fst e with Some n => beq n (snd e) | None => false end) hs = true).
+  { apply forallb_forall. intros [i n] He. cbn [fst snd].
     assert (Hk : known s' i n) by (left; apply Hhs, He).
-    destruct (Hle i n Hk) as [[Ho|Ho]|[Hc _]]; [exact Ho|apply (Hex Hnm i n Ho)|discriminate Hc]. }
+    destruct (Hle i n Hk) as [[Ho|Ho]|[Hc _]]; [| |discriminate Hc].
+    - apply orb_true_iff. left. apply existsb_exists. exists (i, n). cbn [fst snd].
+      split; [exact Ho|rewrite N.eqb_refl, beq_refl; reflexivity].
+    - apply orb_true_iff. right. rewrite Ho. apply beq_refl. }
   rewrite E3. reflexivity.
 Qed.
 
-(* the first extra hypothesis is preserved by every step that keeps the client ID *)
-Lemma tids_invisible_step cfg s ev :
-  wf_cfg cfg -> reach cfg s -> tids_invisible cfg s ->
-  gw_client_id (fst (gw_step cfg s ev)) = gw_client_id s ->
-  tids_invisible cfg (fst (gw_step cfg s ev)).
+(* ================================================================== the client ID changes only in handle_connect *)
+
+Definition keeps (c : bytes) (r : R) : Prop := gw_client_id (st_of r) = c.
+
+Lemma k_ok c S o : gw_client_id S = c -> keeps c (ok S o).
+Proof. intros H. exact H. Qed.
+Lemma k_stop c S o e : gw_client_id S = c -> keeps c (stop S o e).
+Proof. intros H. exact H. Qed.
+Lemma k_mq_send c S m : gw_client_id S = c -> keeps c (mq_send S m).
+Proof. intros H. exact H. Qed.
+Lemma k_sn_send_owned c S o p : gw_client_id S = c -> keeps c (sn_send_owned S o p).
 Proof.
-  intros Hwf Hreach Hvis Hc i n Hk. pose proof (reach_inv cfg s Hwf Hreach) as HI.
-  pose proof (gw_step_post cfg s ev Hwf HI) as [[_ (_ & _ & Hle)] _]. rewrite Hc.
-  destruct (Hle i n Hk) as [Ho|[_ Hn]]; [apply (Hvis i n Ho)|exact Hn].
+  intros H. unfold sn_send_owned. destruct (gw_st S); try destruct (len (pack p) <=? MaxPacketLen); exact H.
 Qed.
+Lemma k_andthen c r g : keeps c r -> (forall s1, gw_client_id s1 = c -> keeps c (g s1)) -> keeps c (andthen r g).
+Proof.
+  intros Hs Hg. destruct r as [[s1 o1] [|e]]; unfold keeps in *; cbn [andthen st_of fst] in *.
+  - specialize (Hg s1 Hs). destruct (g s1) as [[s2 o2] res]. exact Hg.
+  - exact Hs.
+Qed.
+
+Lemma k_send_all c ps : forall S, gw_client_id S = c -> keeps c (send_all S ps).
+Proof.
+  induction ps as [|[o p] ps IH]; intros S H; cbn [send_all]; [exact H|].
+  apply k_andthen; [apply k_sn_send_owned; exact H|]. intros s1 H1. apply IH. exact H1.
+Qed.
+
+Lemma finish_obj_cid s g : gw_client_id (finish_obj s g) = gw_client_id s.
+Proof. unfold finish_obj. destruct (gw_objs s !! g) as [t|]; [|reflexivity]. destruct t; reflexivity. Qed.
+
+Lemma seq_next_cid cfg s : gw_client_id (fst (fst (seq_next cfg s))) = gw_client_id s.
+Proof. unfold seq_next. destruct (gw_seq_next s =? max_tid cfg); reflexivity. Qed.
+
+Lemma skip_predefined_cid cfg fuel : forall s id, gw_client_id (fst (skip_predefined fuel cfg s id)) = gw_client_id s.
+Proof.
+  induction fuel as [|fuel IH]; intros s id; cbn [skip_predefined];
+    destruct (get_name (predefined cfg) (gw_client_id s) id); try reflexivity.
+  pose proof (seq_next_cid cfg s) as Hs. destruct (seq_next cfg s) as [[s1 id1] ov]. cbn [fst] in Hs.
+  destruct ov; [exact Hs|]. rewrite IH. exact Hs.
+Qed.
+
+Lemma new_topic_id_cid cfg s : gw_client_id (fst (new_topic_id cfg s)) = gw_client_id s.
+Proof.
+  unfold new_topic_id. destruct (gw_no_more_tids s); [reflexivity|].
+  pose proof (seq_next_cid cfg s) as Hs. destruct (seq_next cfg s) as [[s1 id1] ov]. cbn [fst] in Hs.
+  destruct ov; [exact Hs|]. rewrite skip_predefined_cid. exact Hs.
+Qed.
+
+Ltac k_auto :=
+  repeat match goal with
+         | |- keeps _ (andthen _ _) => apply k_andthen; [|intros ? ?]
+         | |- keeps _ (send_all _ _) => apply k_send_all
+         | |- keeps _ (sn_send _ _) => apply k_sn_send_owned
+         | |- keeps _ (sn_send_owned _ _ _) => apply k_sn_send_owned
+         | |- keeps _ (mq_send _ _) => apply k_mq_send
+         | |- keeps _ (ok _ _) => apply k_ok
+         | |- keeps _ (stop _ _ _) => apply k_stop
+         | |- keeps _ (match ?x with _ => _ end) => destruct x eqn:?
+         | |- keeps _ (if ?x then _ else _) => destruct x eqn:?
+         end.
+
+Local Opaque finish_obj.
+
+Ltac cid_tac :=
+  repeat (cbn; rewrite ?finish_obj_cid);
+  first [ assumption
+        | match goal with |- gw_client_id (if ?c then _ else _) = _ => destruct c; cid_tac end
+        | match goal with |- gw_client_id (match ?c with _ => _ end) = _ => destruct c; cid_tac end ].
+
+Lemma connect_auth_done_k c s g mq : gw_client_id s = c -> keeps c (connect_auth_done s g mq).
+Proof. intros H. unfold connect_auth_done. k_auto; cid_tac. Qed.
+
+Lemma connect_auth_k c s g mq a me da : gw_client_id s = c -> keeps c (connect_auth s g mq a me da).
+Proof.
+  intros H. unfold connect_auth. k_auto; try cid_tac. apply connect_auth_done_k. cid_tac.
+Qed.
+
+Lemma handle_client_publish_k c cfg s dup q r tit tid mid data :
+  gw_client_id s = c -> keeps c (handle_client_publish cfg s dup q r tit tid mid data).
+Proof. intros H. unfold handle_client_publish, new_obj. cbv zeta. k_auto; cid_tac. Qed.
+
+Lemma handle_unsubscribe_k c cfg s tit mid tid name :
+  gw_client_id s = c -> keeps c (handle_unsubscribe cfg s tit mid tid name).
+Proof. intros H. unfold handle_unsubscribe. k_auto; cid_tac. Qed.
+
+Lemma handle_subscribe_k c cfg s dup qos tit mid tid name :
+  gw_client_id s = c -> keeps c (handle_subscribe cfg s dup qos tit mid tid name).
+Proof.
+  intros H. unfold handle_subscribe, new_obj. cbv zeta beta.
+  pose proof (new_topic_id_cid cfg s) as Hn. destruct (new_topic_id cfg s) as [s1 r]. cbn [fst] in Hn.
+  rewrite H in Hn. k_auto; cid_tac.
+Qed.
+
+Lemma register_branch_k c cfg s mid name : gw_client_id s = c -> keeps c (register_branch cfg s mid name).
+Proof.
+  intros H. unfold register_branch, register_topic.
+  pose proof (new_topic_id_cid cfg s) as Hn. destruct (new_topic_id cfg s) as [s1 r]. cbn [fst] in Hn.
+  rewrite H in Hn. destruct (find_registered s name); [|destruct r]; k_auto; cid_tac.
+Qed.
+
+Lemma bp_proceed_k c cfg s g mid qos st data snpub :
+  gw_client_id s = c -> keeps c (bp_proceed cfg s g mid qos st data snpub).
+Proof. intros H. unfold bp_proceed. cbv zeta. destruct data; destruct st; k_auto; cid_tac. Qed.
+
+Lemma bp_regack_k c cfg s g t rc : gw_client_id s = c -> keeps c (bp_regack cfg s g t rc).
+Proof. intros H. unfold bp_regack. cbv zeta. k_auto; try cid_tac. apply bp_proceed_k. cid_tac. Qed.
+
+Definition pkt_not_connect (p : packet) : Prop :=
+  match p with Connect _ _ _ _ _ => False | _ => True end.
+
+Lemma handle_sn_k c cfg s p : gw_client_id s = c -> pkt_not_connect p -> keeps c (handle_sn cfg s p).
+Proof.
+  intros H Hp. unfold handle_sn.
+  destruct (negb (packet_legal cfg s p)); [apply k_stop; exact H|].
+  destruct_pkt p; try (apply k_stop; exact H); try (exfalso; exact Hp).
+  - k_auto; try cid_tac. apply connect_auth_k. exact H.
+  - k_auto; cid_tac.
+  - k_auto; cid_tac.
+  - apply (register_branch_k c cfg s mid name H).
+  - k_auto; try cid_tac. apply bp_regack_k. exact H.
+  - apply handle_client_publish_k. exact H.
+  - k_auto; try cid_tac; apply bp_proceed_k; exact H.
+  - k_auto; try cid_tac; apply bp_proceed_k; exact H.
+  - k_auto; try cid_tac; apply bp_proceed_k; exact H.
+  - k_auto; cid_tac.
+  - apply handle_subscribe_k. exact H.
+  - apply handle_unsubscribe_k. exact H.
+  - cbv zeta. k_auto; cid_tac.
+  - cbv zeta. k_auto; cid_tac.
+Qed.
+
+Lemma handle_broker_publish_k c cfg s dup qos retain topic mid0 payload :
+  gw_client_id s = c -> keeps c (handle_broker_publish cfg s dup qos retain topic mid0 payload).
+Proof.
+  intros H. unfold handle_broker_publish, new_obj.
+  pose proof (new_topic_id_cid cfg s) as Hn. destruct (new_topic_id cfg s) as [s1 r]. cbn [fst] in Hn.
+  rewrite H in Hn.
+  destruct (if is_short_topic topic then _ else _) as [[tid tit]|]; cbv beta iota zeta;
+    k_auto; try cid_tac; apply bp_proceed_k; cid_tac.
+Qed.
+
+Lemma handle_mq_k c cfg s m : gw_client_id s = c -> keeps c (handle_mq cfg s m).
+Proof.
+  intros H. unfold handle_mq. destruct m; try (apply k_stop; exact H).
+  - k_auto; cid_tac.
+  - apply handle_broker_publish_k. exact H.
+  - k_auto; cid_tac.
+  - k_auto; cid_tac.
+  - k_auto; try cid_tac. apply bp_proceed_k. exact H.
+  - k_auto; cid_tac.
+  - cbv zeta. k_auto; cid_tac.
+  - k_auto; cid_tac.
+  - k_auto; cid_tac.
+Qed.
+
+Lemma fire_k c cfg s k : gw_client_id s = c -> keeps c (fire cfg s k).
+Proof.
+  intros H. unfold fire. destruct k as [g|g|g|p|p]; try (k_auto; cid_tac).
+  destruct (gw_objs s !! g) as [t|]; [|apply k_ok; exact H].
+  destruct t as [| | |mid qos st data snpub n]; try (apply k_ok; exact H).
+  destruct (retry_count cfg <? n + 1); [apply k_ok; cid_tac|]. cbv zeta.
+  destruct data as [p|ka m].
+  - match goal with |- context [sn_send_owned ?S0 ?ow ?p0] =>
+      assert (HQ : keeps c (sn_send_owned S0 ow p0)) by (apply k_sn_send_owned; cid_tac);
+      destruct (sn_send_owned S0 ow p0) as [[s1 o] [|e]]; [exact HQ|]
+    end.
+    unfold keeps in *. cbn [ok st_of fst] in *. rewrite finish_obj_cid. exact HQ.
+  - apply k_mq_send. cid_tac.
+Qed.
+
+Local Transparent finish_obj.
+
+Lemma finish_r_k c r a b : keeps c r -> gw_client_id (fst (finish_r r a b)) = c.
+Proof. intros H. destruct r as [[s1 o] [|e]]; exact H. Qed.
+
+Lemma run_timers_k c cfg t fuel : forall s, gw_client_id s = c -> gw_client_id (fst (run_timers fuel cfg s t)) = c.
+Proof.
+  induction fuel as [|fuel IH]; intros s H; cbn [run_timers]; [exact H|].
+  destruct (gw_ending s) as [te|].
+  - destruct (te <=? t); exact H.
+  - destruct (min_timer (gw_timers s)) as [tm|]; [|exact H].
+    destruct (tm_at tm <=? t); [|exact H].
+    match goal with |- context [fire cfg ?S0 _] =>
+      pose proof (finish_r_k c _ false false (fire_k c cfg S0 (tm_kind tm) H)) as HF;
+      destruct (finish_r (fire cfg S0 (tm_kind tm)) false false) as [s1 o1]
+    end.
+    cbn [fst] in HF. pose proof (IH s1 HF) as HR. destruct (run_timers fuel cfg s1 t) as [s2 o2]. exact HR.
+Qed.
+
+Definition not_connect (ev : gw_event) : Prop :=
+  match ev_packet ev with Some p => pkt_not_connect p | None => True end.
+
+(* every step that does not handle a (decodable) CONNECT keeps the client ID *)
+Lemma gw_step_cid cfg s ev : not_connect ev -> gw_client_id (fst (gw_step cfg s ev)) = gw_client_id s.
+Proof.
+  intros Hp. unfold gw_step. destruct (gw_ended s); [reflexivity|].
+  destruct ev as [dg0|m| | |d|].
+  - destruct (gw_ending s); [reflexivity|]. cbv zeta. unfold not_connect in Hp. cbn [ev_packet] in Hp.
+    destruct (read_dgram dg0) as [p|e|ps]; apply finish_r_k.
+    + apply handle_sn_k; [reflexivity|exact Hp].
+    + apply k_stop. reflexivity.
+    + apply k_stop. reflexivity.
+  - destruct (gw_ending s); [reflexivity|]. cbv zeta. apply finish_r_k. apply handle_mq_k. reflexivity.
+  - destruct (gw_ending s); [reflexivity|]. apply finish_r_k, k_stop. reflexivity.
+  - destruct (gw_ending s); [reflexivity|]. apply finish_r_k, k_stop. reflexivity.
+  - cbv zeta. pose proof (run_timers_k (gw_client_id s) cfg (gw_now s + d) (advance_fuel cfg s d) s eq_refl) as HR.
+    destruct (run_timers (advance_fuel cfg s d) cfg s (gw_now s + d)) as [s1 o1]. cbn [fst] in *.
+    destruct (gw_ended s1); exact HR.
+  - destruct (gw_ending s); [reflexivity|]. apply finish_r_k, k_stop. reflexivity.
+Qed.
+
+(* the step that handles a CONNECT allocates nothing: its post-condition holds relative to any
+   client ID, in particular the one the CONNECT sets *)
+Lemma gw_step_connect_post cfg c s dg w cl pr d cid :
+  read_dgram dg = Ok (Connect w cl pr d cid) -> Inv s -> Post2 cfg c s (gw_step cfg s (EvSn dg)).
+Proof.
+  intros Hr HI. pose proof (Good_refl cfg c s HI) as HG0.
+  assert (Hnil : Post2 cfg c s (s, [])) by (split; [exact HG0|apply outs_ok_nil]).
+  unfold gw_step. destruct (gw_ended s); [exact Hnil|]. destruct (gw_ending s); [exact Hnil|]. cbv zeta.
+  assert (HG : Good cfg c s (s <| gw_last_sn := gw_now s |>)) by good_tac.
+  rewrite Hr. apply finish_r_post. unfold handle_sn.
+  destruct (negb (packet_legal cfg (s <| gw_last_sn := gw_now s |>) (Connect w cl pr d cid)));
+    [apply post_stop; exact HG|].
+  apply handle_connect_post. exact HG.
+Qed.
+
+(* ------------------------------------------------------------------ preservation of tids_invisible *)
+
+(* the step keeps the client ID, or starts with nothing known (no topic ID allocated yet) *)
+Definition cid_stable (cfg : gw_cfg) (s : gw_state) (ev : gw_event) : Prop :=
+  gw_client_id (fst (gw_step cfg s ev)) = gw_client_id s \/ (forall i n, ~ known s i n).
 
 Lemma tids_invisible_init cfg : tids_invisible cfg (init_state cfg).
 Proof.
   intros i n [[]|H]. change (gw_registered (init_state cfg)) with (∅ : Nmap bytes) in H.
   rewrite lookup_empty in H. discriminate H.
+Qed.
+
+Lemma tids_invisible_step cfg s ev :
+  wf_cfg cfg -> reach cfg s -> wf_event ev -> tids_invisible cfg s -> cid_stable cfg s ev ->
+  tids_invisible cfg (fst (gw_step cfg s ev)).
+Proof.
+  intros Hwf Hreach _ Hvis Hst. pose proof (reach_inv cfg s Hwf Hreach) as HI.
+  assert (Hsame : gw_client_id (fst (gw_step cfg s ev)) = gw_client_id s ->
+                  tids_invisible cfg (fst (gw_step cfg s ev))).
+  { intros Hc i n Hk. pose proof (gw_step_post cfg s ev Hwf HI) as [[_ (_ & _ & Hle)] _]. rewrite Hc.
+    destruct (Hle i n Hk) as [Ho|[_ Hn]]; [apply (Hvis i n Ho)|exact Hn]. }
+  destruct Hst as [Hc|Hnone]; [exact (Hsame Hc)|].
+  destruct (ev_packet ev) as [p|] eqn:Hev.
+  2: { apply Hsame, gw_step_cid. unfold not_connect. rewrite Hev. exact I. }
+  destruct p; try (apply Hsame, gw_step_cid; unfold not_connect; rewrite Hev; exact I).
+  apply ev_packet_some in Hev. destruct Hev as (dg & -> & Hr).
+  intros i n Hk.
+  pose proof (gw_step_connect_post cfg (gw_client_id (fst (gw_step cfg s (EvSn dg)))) s dg _ _ _ _ _ Hr HI)
+    as [[_ (_ & _ & Hle)] _].
+  destruct (Hle i n Hk) as [Ho|[_ Hn]]; [exfalso; exact (Hnone i n Ho)|exact Hn].
 Qed.
 
 (* ================================================================== C11: nothing is written to a sleeping client *)
@@ -1347,21 +1590,26 @@ Qed.
 
 Local Transparent finish_obj.
 
-(* the flush of the sleep buffer when every buffered packet passes the size check of snSend *)
-Lemma send_all_awake ps : forall S,
-  gw_st S = Awake -> (forall e, In e ps -> len (pack (snd e)) <= MaxPacketLen) ->
-  send_all S ps = (S, map (fun e => OutSn (gw_now S) (pack (snd e))) ps, HOk).
+(* the flush of the sleep buffer in state Awake writes what flush_expected says, up to the last
+   datagram: PINGRESP follows if every buffered packet passed the size check of snSend; otherwise
+   the flush stops in front of the first oversized packet with "packet too long", and the DISCONNECT
+   of the terminating session (begin_end, state Awake) follows *)
+Lemma send_all_flush ps : forall S,
+  gw_st S = Awake ->
+  exists l res, send_all S ps = (S, map (OutSn (gw_now S)) l, res) /\
+    flush_expected ps = l ++ [match res with HOk => pack Pingresp | HEnd _ => pack (Disconnect 0) end].
 Proof.
-  induction ps as [|[o p] ps IH]; intros S Hst Hsz; cbn [send_all map]; [reflexivity|].
-  unfold sn_send, sn_send_owned. rewrite Hst.
-  assert (E : (len (pack p) <=? MaxPacketLen) = true).
-  { apply N.leb_le. apply (Hsz (o, p)). left. reflexivity. }
-  rewrite E. cbn [andthen ok]. rewrite IH; [reflexivity|exact Hst|].
-  intros e He. apply Hsz. right. exact He.
+  induction ps as [|[o p] ps IH]; intros S Hst; cbn [send_all flush_expected].
+  - exists [], HOk. split; reflexivity.
+  - unfold sn_send, sn_send_owned. rewrite Hst.
+    destruct (len (pack p) <=? MaxPacketLen).
+    + destruct (IH S Hst) as (l & res & E1 & E2). exists (pack p :: l), res.
+      cbn [andthen ok]. rewrite E1, E2. split; reflexivity.
+    + exists [], (HEnd EcHandlerError). split; reflexivity.
 Qed.
 
-Lemma sns_map_outsn {A} (f : A -> bytes) (t : N) (l : list A) (rest : list gw_out) :
-  sns (obs_of_outs (map (fun e => OutSn t (f e)) l ++ rest)) = map f l ++ sns (obs_of_outs rest).
+Lemma sns_outsn (t : N) (l : list bytes) (rest : list gw_out) :
+  sns (obs_of_outs (map (OutSn t) l ++ rest)) = l ++ sns (obs_of_outs rest).
 Proof. induction l as [|x l IH]; [reflexivity|]. cbn. f_equal. exact IH. Qed.
 
 Lemma no_outsn_sns os : (forall t dg, ~ In (OutSn t dg) os) -> sns (obs_of_outs os) = [].
@@ -1371,22 +1619,15 @@ Proof.
   apply in_sns_obs in Hin. destruct Hin as [t Hin]. exfalso. exact (H t dg Hin).
 Qed.
 
-(* Extra hypothesis of clause 2: every buffered packet passes the size check of snSend.  (A broker
-   PUBLISH with a short topic name and a payload of more than about 8 KiB is buffered as it is while
-   the client sleeps; wf_mq does not bound the payload.  The flush then stops at that packet with
-   "packet too long" and ends the session.) *)
-Definition buffer_small (s : gw_state) : Prop :=
-  forall e, In e (gw_buffer s) -> len (pack (snd e)) <= MaxPacketLen.
-
-(* ORIGINAL STATEMENT (false, see the counterexamples at the end of the file):
+(* ORIGINAL STATEMENT (false, see the counterexample at the end of the file):
    Theorem chk_C11_sound : forall cfg s ev, wf_cfg cfg -> reach cfg s -> wf_event ev ->
      chk_C11 cfg s ev (obs_of_outs (snd (gw_step cfg s ev))) = [].
    The partial version needs neither reachability nor well-formedness. *)
 Theorem chk_C11_sound_partial : forall cfg s ev, wf_cfg cfg -> reach cfg s -> wf_event ev ->
-  buffer_small s -> connack_not_due s ev ->
+  connack_not_due s ev ->
   chk_C11 cfg s ev (obs_of_outs (snd (gw_step cfg s ev))) = [].
 Proof.
-  intros cfg s ev _ _ _ Hsmall Hc. unfold chk_C11.
+  intros cfg s ev _ _ _ Hc. unfold chk_C11.
   destruct (running s) eqn:Hrun; [|reflexivity].
   destruct (cstate_eqb (gw_st s) Asleep) eqn:Hst; [|reflexivity]. cbn [negb orb].
   assert (Hs : gw_st s = Asleep) by (destruct (gw_st s); try discriminate Hst; reflexivity).
@@ -1400,8 +1641,125 @@ Proof.
   apply ev_packet_some in Hev. destruct Hev as (dg0 & -> & Hr0).
   unfold gw_step. rewrite He, Hg, Hr0. cbv zeta.
   unfold handle_sn, packet_legal. cbn [gw_st set]. rewrite Hs. cbn [negb cstate_eqb].
-  rewrite send_all_awake; [|reflexivity|exact Hsmall].
-  cbn [andthen]. unfold sn_send, sn_send_owned. cbn [gw_st set].
-  change (len (pack Pingresp) <=? MaxPacketLen) with true. cbn [ok finish_r snd].
-  Show. rewrite sns_map_outsn. cbn [app]. rewrite beql_refl. reflexivity.
+  change (gw_buffer (s <| gw_last_sn := gw_now s |>)) with (gw_buffer s).
+  assert (Haw : gw_st (s <| gw_last_sn := gw_now s |> <| gw_st := Awake |>) = Awake) by reflexivity.
+  destruct (send_all_flush (gw_buffer s) _ Haw) as (l & res & E1 & E2). clear Haw.
+  rewrite E1, E2. destruct res as [|e]; cbn [andthen].
+  - unfold sn_send, sn_send_owned. cbn [gw_st set].
+    change (len (pack Pingresp) <=? MaxPacketLen) with true. cbn [ok andthen finish_r snd].
+    rewrite sns_outsn. cbn [app]. rewrite beql_refl. reflexivity.
+  - cbn [finish_r]. unfold begin_end. cbn [gw_st set snd].
+    rewrite sns_outsn. rewrite beql_refl. reflexivity.
 Qed.
+
+(* ================================================================== every history *)
+
+(* C04 along every well-formed history whose steps keep the client ID once a topic ID is known *)
+Theorem chk_C04_all_histories : forall cfg evs, wf_cfg cfg -> Forall wf_event evs ->
+  run_all cfg (cid_stable cfg) (init_state cfg) evs ->
+  run_all cfg (fun s ev => chk_C04 cfg s ev (obs_of_outs (snd (gw_step cfg s ev))) = []) (init_state cfg) evs.
+Proof.
+  intros cfg evs Hwf Hevs Hrun.
+  apply (run_all_lift_inv cfg (tids_invisible cfg) (cid_stable cfg)); try assumption.
+  - intros s ev Hr Hev Hi Hst. apply tids_invisible_step; assumption.
+  - intros s ev Hr Hev Hi _. apply chk_C04_sound_partial; assumption.
+  - apply reach_init.
+  - apply tids_invisible_init.
+Qed.
+
+(* C11 along every well-formed history in which no accepting CONNACK of the broker is relayed for a
+   connect exchange that is still pending *)
+Theorem chk_C11_all_histories : forall cfg evs, wf_cfg cfg -> Forall wf_event evs ->
+  run_all cfg connack_not_due (init_state cfg) evs ->
+  run_all cfg (fun s ev => chk_C11 cfg s ev (obs_of_outs (snd (gw_step cfg s ev))) = []) (init_state cfg) evs.
+Proof.
+  intros cfg evs Hwf Hevs Hrun.
+  apply (run_all_lift cfg connack_not_due); try assumption.
+  - intros s ev Hr Hev Hc. apply chk_C11_sound_partial; assumption.
+  - apply reach_init.
+Qed.
+
+(* ================================================================== the remaining hypotheses are necessary *)
+
+(* one predefined topic (ID 1, "t12") of the client "c" *)
+Definition cx_cfg : gw_cfg :=
+  {| auth_enabled := false; cfg_user := None; cfg_pass := None; retry_delay := 1000; retry_count := 3;
+     predefined := [([99], <[1 := [116; 49; 50]]> (∅ : Nmap bytes))]; min_tid := 1; max_tid := 65534 |}.
+
+Lemma cx_cfg_wf : wf_cfg cx_cfg.
+Proof.
+  unfold wf_cfg. cbn. repeat split; try lia.
+  constructor; [|constructor]. cbn. split; [apply wf_bytesb_spec; reflexivity|].
+  intros i n H. apply lookup_insert_Some in H. destruct H as [[<- <-]|[_ H]].
+  - split; [lia|apply wf_bytesb_spec; reflexivity].
+  - rewrite lookup_empty in H. discriminate H.
+Qed.
+
+Definition cx_connect : bytes := pack (Connect false true 1 10 [99]).
+
+Lemma cx_dgram_wf p : wf_bytesb (pack p) = true -> (len (pack p) <=? 100) = true -> wf_event (EvSn (pack p)).
+Proof.
+  intros H1 H2. split; [apply wf_bytesb_spec; exact H1|].
+  apply N.leb_le in H2. unfold len in H2. unfold MaxPacketLen. lia.
+Qed.
+
+(* tids_invisible is necessary for C04: a broker PUBLISH that arrives before the first CONNECT gets
+   topic ID 1 (allocated under the empty client ID) and is announced in a REGISTER; the CONNECT of
+   client "c" then makes 1 a predefined topic ID of the session's client; the retry of the REGISTER
+   one second later announces (1, "abc") again, which clause 2 rejects. *)
+Definition cx04_hist : list gw_event :=
+  [EvMq (MqPublish false 0 false [97; 98; 99] 0 []); EvSn cx_connect].
+Definition cx04_ev : gw_event := EvAdvance 1000.
+
+Lemma cx_connect_wf : wf_event (EvSn cx_connect).
+Proof. apply (cx_dgram_wf (Connect false true 1 10 [99])); vm_compute; reflexivity. Qed.
+
+Lemma cx04_wf : Forall wf_event (cx04_hist ++ [cx04_ev]).
+Proof.
+  unfold cx04_hist, cx04_ev. cbn [app].
+  constructor; [|constructor; [exact cx_connect_wf|constructor; [exact I|constructor]]].
+  cbn [wf_event wf_mq].
+  split; [reflexivity|]. split; [apply wf_bytesb_spec; reflexivity|]. split; [reflexivity|].
+  split; [reflexivity|constructor].
+Qed.
+
+Example chk_C04_needs_tids_invisible :
+  let s := snd (gw_run cx_cfg (init_state cx_cfg) cx04_hist) in
+  chk_C04 cx_cfg s cx04_ev (obs_of_outs (snd (gw_step cx_cfg s cx04_ev))) = [2].
+Proof. vm_compute. reflexivity. Qed.
+
+(* ... and indeed the CONNECT step of that history is not cid_stable *)
+Example cx04_not_cid_stable :
+  let s := snd (gw_run cx_cfg (init_state cx_cfg) [EvMq (MqPublish false 0 false [97; 98; 99] 0 [])]) in
+  ~ cid_stable cx_cfg s (EvSn cx_connect).
+Proof.
+  intros s [H|H].
+  - vm_compute in H. discriminate H.
+  - apply (H 1 [97; 98; 99]). left. vm_compute. left. reflexivity.
+Qed.
+
+(* connack_not_due is necessary for C11: the client re-CONNECTs while Active and goes to sleep before
+   the broker's CONNACK arrives; the CONNACK is then relayed (written to the client) in state Asleep. *)
+Definition cx11_hist : list gw_event :=
+  [EvSn cx_connect; EvMq (MqConnack false 0); EvSn cx_connect; EvSn (pack (Disconnect 5))].
+Definition cx11_ev : gw_event := EvMq (MqConnack false 0).
+
+Lemma cx11_wf : Forall wf_event (cx11_hist ++ [cx11_ev]).
+Proof.
+  unfold cx11_hist, cx11_ev. cbn [app].
+  assert (Hk : wf_event (EvMq (MqConnack false 0))) by reflexivity.
+  assert (Hd : wf_event (EvSn (pack (Disconnect 5)))).
+  { apply (cx_dgram_wf (Disconnect 5)); vm_compute; reflexivity. }
+  repeat (apply Forall_cons; [first [exact cx_connect_wf|exact Hk|exact Hd]|]). apply Forall_nil.
+Qed.
+
+Example chk_C11_needs_connack_not_due :
+  let s := snd (gw_run cx_cfg (init_state cx_cfg) cx11_hist) in
+  gw_st s = Asleep /\
+  chk_C11 cx_cfg s cx11_ev (obs_of_outs (snd (gw_step cx_cfg s cx11_ev))) = [1].
+Proof. vm_compute. split; reflexivity. Qed.
+
+Print Assumptions chk_C04_sound_partial.
+Print Assumptions chk_C11_sound_partial.
+Print Assumptions chk_C04_all_histories.
+Print Assumptions chk_C11_all_histories.
